@@ -427,7 +427,7 @@ pub fn run_c13(tier: Tier) -> i32 {
                 Ok(Some(4)) => sink.fail("idlround:rendered-text-not-parseable", format!("{what} parsed, but its rendering did not parse back"), case),
                 Ok(Some(c)) => sink.fail("idlparse:deep-nesting-child-failed", format!("{what}: child exit code {c}"), case),
                 Ok(None) => sink.fail("idlparse:stack-overflow-on-a-deeply-nested-type", format!("{what} (a text of {} KB) killed the process: the recursive-descent parser (and the recursive Display / Drop of the tree) exhausted an 8 MiB stack", depth * [2, 8, 5, 3][kind] / 1024), case),
-                Err(e) => xplore::bug!("cannot run the child: {e}"),
+                Err(e) => xplore::bug!("cannot run the child {}: {e} (exists: {})", exe.display(), exe.exists()),
             }
         }));
     }
